@@ -96,7 +96,11 @@ class Local(BaseEstimator):
         if C.symbolic:
             F = z3.Function(f"{name}_{self.id_}_{k}", z3.RealSort(), z3.RealSort())
             return sx.SymReal(F(sx._real(sx.term(x))))
-        return float(x) * (self.id_ + 2) + 0.125 * k + (0.5 if name == "P" else 0)
+        if name == "P":
+            # concrete replay: a cost-sensitive classifier -- its predict (class index id_ % 2 on a one-row batch)
+            # is NOT the argmax of its probabilities
+            return (0.2 if k == self.id_ % 2 else 0.8) + 0.001 * float(x)
+        return float(x) * (self.id_ + 2) + 0.125 * k
 
     def predict(self, X):
         if Local.classifier:
@@ -108,7 +112,7 @@ class Local(BaseEstimator):
         return sx.sarr(rows) if Local.C.symbolic else numpy.array(rows)
 
 
-class _NP:
+class _NP(sx.Conversions):
     def __init__(self, rnd):
         self.random = rnd
 
@@ -217,6 +221,7 @@ def scenario_for(cfg):
             mean = est.mean_estimator_
             ml = [t for t in Local.log if t[0] is mean]
             C.true(len(ml) == 1 and ml[0][1] is Xtr and ml[0][3] is w, "fallback-model-trained-on-the-whole-training-set")
+            C.true(mean is not est.estimator and not hasattr(est.estimator, "id_"), "the-estimator-parameter-is-never-trained(the-fallback-model-is-a-clone-too)")
             classes = sorted(set(y.tolist())) if clf else None
             # bucket -> position of its model in estimators_, read from the fitted attribute mapping_
             # (keys: leaf node id of the tree / tuple of the discretiser's one-hot row)
@@ -285,6 +290,9 @@ def scenario_for(cfg):
                 lab = est.predict(Xq)
                 for i in range(nq):
                     C.true(int(lab[i]) in classes, "predicted-label-in-classes_")
+                if nq == 1:
+                    model = est.estimators_[index_of_bucket[bq[0]]] if bq[0] in index_of_bucket else mean
+                    C.true(int(lab[0]) == int(model.predict(Xq[0:1])[0]), "predict(row)=its-bucket-model's-predict(row)(not-a-label-rebuilt-from-probabilities)", detail=(int(lab[0]), bq[0]))
                 C.true(sorted(est.classes_.tolist()) == classes, "classes_")
                 if cfg.get("seed") is not None:
                     C.true(rnd.global_used == 0, "integer-random_state-never-falls-back-to-an-unseeded-generator")
